@@ -91,6 +91,7 @@ inductive Op where
   -- extension round 4: the same object twice, other container kinds, swap, record::set
   | treeSwap | treeSortPred | joinSelf | arrJoinSelf | tupConcatSelf | optCombineSelf
   | algMapList | algMapArr | algMapTup | algLoopBreakTuple | recSet
+  | algRemoveIf | algRemove | algUnique | algUniqueIf
   deriving DecidableEq, Repr, Inhabited
 
 /-- Arguments (value category, element identities in container order) and the operation's
@@ -148,6 +149,18 @@ def eraseRange (a lo hi : Nat) : List Instr := (List.range (hi - lo)).map fun j 
 
 /-- `grid::fill`: every cell is overwritten with what the user's function makes -/
 def fillAll (a n : Nat) : List Instr := (List.range n).flatMap fun i => [.pop a i .drop, .fresh (1000 + i) (.arg a)]
+
+/-- `std::remove_if` / `std::unique` followed by `erase(position, end)` on a sequence (mask: 1 = keep, 0 = remove): the predicate reads
+the elements up to the first one to go; every later element is read and, when kept, move-assigned to an earlier place; the elements to
+go are overwritten or erased -/
+def compact (a : Nat) (mask : List Nat) : List Instr :=
+  match mask.findIdx? (· == 0) with
+  | none => readAll a mask.length
+  | some f =>
+    readAll a (f + 1) ++
+      ((List.range (mask.length - (f + 1))).flatMap fun j =>
+        .read a (f + 1 + j) :: (if mask[f + 1 + j]? = some 1 then [.shift a (f + 1 + j)] else [])) ++
+      ((List.range mask.length).filter fun i => mask[i]? == some 0).map fun i => .pop a i .drop
 
 def freshRange (n : Nat) (d : Dest) : List Instr := (List.range n).map fun j => .fresh (1000 + j) d
 
@@ -375,6 +388,12 @@ def prog (o : Op) (inp : Input) : List Instr :=
   | .algLoopBreakTuple => readAll 0 (min (n 0) (par0 + 1))
   -- record::set<Label>(record, value): element par0 is overwritten
   | .recSet => [.pop 0 par0 .drop, .xfer 1 0 (fwd (rv 1)) (.arg 0)]
+  -- remove_if / unique_if: par = what the predicate answers per element (0 = remove; for unique_if: 0 = "equal to the element kept last")
+  | .algRemoveIf | .algUniqueIf => compact 0 inp.par
+  -- remove(container, value): the value is captured by copy; the tokens are pairwise different, so nothing is removed
+  | .algRemove => .xfer 1 0 .copy .drop :: readAll 0 (n 0)
+  -- unique with operator==: pairwise different tokens, nothing is removed
+  | .algUnique => readAll 0 (n 0)
   | .optsSum => if par0 = 0 then [.fresh 1000 .res, .fresh 1001 .res] else [.fresh 1000 .drop, .fresh 1000 .res]
 
 def jn (b : Bool) : String := if b then "J" else "N"
@@ -443,6 +462,8 @@ def tag (o : Op) (inp : Input) : String :=
   | .parseRepPlus => sf (decide (1 ≤ inp.par.headD 0))
   | .optsSum => if inp.par.headD 0 == 0 then "L" else "R"
   | .optCombineSelf => jn (inp.size 0 == 1)
+  | .algRemoveIf => if inp.par.any (· == 0) then "1" else "0"
+  | .algRemove => "0"
   | _ => "-"
 
 /-! ## well-formed inputs -/
@@ -607,6 +628,11 @@ def shapeOk (o : Op) (inp : Input) : Bool :=
   | .parseOpt | .parseConvert | .optsArgument | .optsOptional | .optsSum => inp.args.length == 0 && inp.par.length == 1 && inp.par.headD 0 ≤ 1
   | .parseAlt | .parseAsStruct | .optsProduct => inp.args.length == 0 && inp.par.length == 1 && inp.par.headD 0 ≤ 2
   | .parseSeparator | .parseList | .parseRepPlus | .optsMany => inp.args.length == 0 && inp.par.length == 1
+  | .algRemoveIf => inp.args.length == 1 && catIn inp 0 [.io] && inp.par.length == n 0 && inp.par.all (· ≤ 1)
+  | .algUniqueIf =>
+    inp.args.length == 1 && catIn inp 0 [.io] && inp.par.length == n 0 && inp.par.all (· ≤ 1) && inp.par.headD 1 == 1
+  | .algUnique => inp.args.length == 1 && catIn inp 0 [.io] && inp.par.isEmpty
+  | .algRemove => inp.args.length == 2 && catIn inp 0 [.io] && catIn inp 1 [.cr] && n 1 == 1 && inp.par.isEmpty
   | .treeSwap =>
     inp.args.length == 4 && catIn inp 0 [.io] && catIn inp 1 [.io] && catIn inp 2 [.io] && catIn inp 3 [.io] && n 0 == 2 && n 3 == 0 &&
       inp.par.isEmpty
@@ -648,7 +674,7 @@ first success in `first_success`, a half-parsed sequence, the emptied `move_rang
 def drops : Op → Bool
   | .eithApply2 | .eithFirstSuccess | .parseSequence | .moveRangeMap | .optCombine | .optAssign
   | .algMapIteration | .algMapIterationSecond | .algSeqIteration | .treeAssign | .treeSetValue | .treeErase | .treeEraseRange | .treeClear
-  | .gridAssign | .gridFill | .parseAsStruct | .optsProduct | .optsSum | .recSet => true
+  | .gridAssign | .gridFill | .parseAsStruct | .optsProduct | .optsSum | .recSet | .algRemoveIf | .algUniqueIf | .algRemove => true
   | _ => false
 
 /-! ## the programs of three repaired defects, kept for the refuted examples in Props/C05.lean -/
@@ -692,7 +718,7 @@ def Op.all : List Op :=
    .parseAlt, .parseOpt, .parseConvert, .parseAsStruct, .parseSeparator, .parseList, .parseRepPlus,
    .optsArgument, .optsOptional, .optsProduct, .optsMany, .optsSum,
    .treeSwap, .treeSortPred, .joinSelf, .arrJoinSelf, .tupConcatSelf, .optCombineSelf, .algMapList, .algMapArr, .algMapTup,
-   .algLoopBreakTuple, .recSet]
+   .algLoopBreakTuple, .recSet, .algRemoveIf, .algRemove, .algUnique, .algUniqueIf]
 
 def Op.name : Op → String
   | .algMap => "algmap" | .fold => "fold" | .foldBreak => "foldbrk" | .mapConcat => "mapcat" | .mapOptional => "mapopt"
@@ -742,5 +768,6 @@ def Op.name : Op → String
   | .treeSwap => "treeswap" | .treeSortPred => "treesortpred" | .joinSelf => "joinself" | .arrJoinSelf => "arrjoinself"
   | .tupConcatSelf => "tupconcatself" | .optCombineSelf => "optcombineself" | .algMapList => "algmaplist" | .algMapArr => "algmaparr"
   | .algMapTup => "algmaptup" | .algLoopBreakTuple => "algloopbrktup" | .recSet => "recset"
+  | .algRemoveIf => "algremoveif" | .algRemove => "algremove" | .algUnique => "algunique" | .algUniqueIf => "alguniqueif"
 
 end Fcppt.C05
